@@ -235,14 +235,15 @@ theorem offIfAttached_spec (nsrc b : Nat) (d : Dev) :
 
 /-- FULL statement wanted: after `ConnMan.act` a device of a dependent group is off iff it was off or one of
 its bus fields names a bus that has been switched off since the last `act`, whatever the sequence of bus
-switchings and whatever the groups.  The real code violates it in three ways (counterexamples below), hence:
-`hoff` — exactly one bus is recorded in `changes['off']`; `hgrp` — every dependent group has at most one
-model and distinct idx.  Under these hypotheses `act` turns off exactly the attached devices, in every group,
-and nothing else (the statuses are those of the specification function `offIfAttached`), whether or not the
-subsequent connectivity check raises. -/
+switchings and whatever the groups.  The real code violates it in two ways (counterexamples below), hence:
+`hoff` — exactly one bus is recorded in `changes['off']`; `hgrp` — the idx of a dependent group are distinct.
+Under these hypotheses `act` turns off exactly the attached devices, in every group AND IN EVERY MODEL of a group
+(since the repair of `GroupBase.find_idx(allow_all=True)`, which reported the first model's matches only:
+`find-idx-first-model-only`, fixed), and nothing else (the statuses are those of the specification function
+`offIfAttached`), whether or not the subsequent connectivity check raises. -/
 theorem bus_off_propagates_exactly_partial (s : CM) (b : Nat)
     (hneeded : s.needed = true) (hoff : offIdx s = [b])
-    (hgrp : ∀ g ∈ s.grps, g.models.length ≤ 1 ∧ (grpIds g).Nodup) :
+    (hgrp : ∀ g ∈ s.grps, (grpIds g).Nodup) :
     (cmAct s).1.grps = s.grps.map fun g => { g with models := g.models.map fun m => m.map (offIfAttached g.nsrc b) } := by
   unfold cmAct
   simp only [hneeded, hoff, actGroups_single s.grps b hgrp, Bool.not_true, Bool.false_eq_true, if_false,
@@ -255,7 +256,7 @@ def demo : CM :=
     grps := [⟨2, [[⟨0, [7, 8], true⟩, ⟨1, [8, 9], true⟩]]⟩, ⟨2, []⟩, ⟨1, [[⟨0, [7], true⟩, ⟨1, [9], false⟩]]⟩] }
 
 example : let s := runOps demo [.init, .set [0] false]
-    s.needed = true ∧ offIdx s = [7] ∧ (∀ g ∈ s.grps, g.models.length ≤ 1 ∧ (grpIds g).Nodup) ∧
+    s.needed = true ∧ offIdx s = [7] ∧ (∀ g ∈ s.grps, (grpIds g).Nodup) ∧
     (cmAct s).1.grps = [⟨2, [[⟨0, [7, 8], false⟩, ⟨1, [8, 9], true⟩]]⟩, ⟨2, []⟩, ⟨1, [[⟨0, [7], false⟩, ⟨1, [9], false⟩]]⟩] := by
   decide +kernel
 
@@ -271,15 +272,15 @@ theorem record_overwrites_off :
     s.busU = [false, true, false, true] ∧ s.needed = false ∧
     s.grps = [⟨2, [[⟨0, [7, 8], true⟩, ⟨1, [9, 10], false⟩]]⟩] := by decide +kernel
 
-/-- COUNTEREXAMPLE (defect `find-idx-first-model-only`): a bus carrying devices of two models of one group
-(here a PV and a Slack of `StaticGen`): only the first model's device is switched off. -/
+/-- the input that failed on the pinned tree (`find-idx-first-model-only`): a bus carrying devices of two models
+of one group (a PV and a Slack of `StaticGen`): both are switched off now -/
 def demo3 : CM :=
   { busIdx := [7, 8], busU := [true, true], busu0 := [], on := [], off := [], needed := false,
     grps := [⟨2, [[⟨0, [7, 8], true⟩]]⟩, ⟨1, [[⟨0, [7], true⟩], [⟨1, [7], true⟩]]⟩] }
 
-theorem second_model_stays_on :
+theorem second_model_goes_off_witness :
     (runOps demo3 [.init, .set [0] false, .act]).grps =
-      [⟨2, [[⟨0, [7, 8], false⟩]]⟩, ⟨1, [[⟨0, [7], false⟩], [⟨1, [7], true⟩]]⟩] := by decide +kernel
+      [⟨2, [[⟨0, [7, 8], false⟩]]⟩, ⟨1, [[⟨0, [7], false⟩], [⟨1, [7], false⟩]]⟩] := by decide +kernel
 
 /-- COUNTEREXAMPLE (defect `bus-off-none-keyerror`): two buses switched off in ONE recorded change (one
 `Bus.set` with two idx, or two buses with `u = 0` in the case file): `None` reaches `Group.set`, `act` raises
